@@ -272,7 +272,7 @@ type c01Static1 struct {
 	c01Emb
 }
 type c01Static2 struct {
-	x     func()
+	x func()
 	C01Pub
 	T     time.Time
 	PT    *time.Time
@@ -285,7 +285,11 @@ type c01Static2 struct {
 	}
 }
 type c01Static3 struct {
-	N  *struct{ S []int; M map[string]int; P *int }
+	N *struct {
+		S []int
+		M map[string]int
+		P *int
+	}
 	PP **int
 	E  struct{}
 	PE *struct{}
